@@ -28,11 +28,22 @@ import (
 // closed, and what the node advertises matches what is still connected; the
 // handlers of the other connections are still blocked (and are ended by a
 // final Shutdown, after which nothing is left).
-func Harness_C16_live() {
-	K := v.Param("K", 2)
-	s, m, cs, _ := vNewUpstreamServer()
-	s.config = config.UpstreamConfig{}
-	s.httpServer = &http.Server{}
+type vLive struct {
+	s     *Server
+	m     *LoadBalancedManager
+	cs    *cluster.State
+	eps   []string
+	ended []bool
+	wg    sync.WaitGroup
+}
+
+// vStartLive serves K upstream connections with the real handler, each on its
+// own goroutine, and returns once all are registered and blocked in accept.
+func vStartLive(tag string, K int) *vLive {
+	l := &vLive{}
+	l.s, l.m, l.cs, _ = vNewUpstreamServer()
+	l.s.config = config.UpstreamConfig{}
+	l.s.httpServer = &http.Server{}
 	VerifUpgradeOK = true
 	pikowebsocket.VerifResetCloses()
 	vClosed, VerifSessions, VerifAcceptCtx, VerifAcceptCalls = nil, nil, nil, 0
@@ -43,39 +54,71 @@ func Harness_C16_live() {
 	for i := 0; i < 4*K; i++ {
 		VerifAcceptScript = append(VerifAcceptScript, 8)
 	}
-	eps := make([]string, K)
-	var wg sync.WaitGroup
-	ended := make([]bool, K)
+	l.eps = make([]string, K)
+	l.ended = make([]bool, K)
 	for i := 0; i < K; i++ {
 		i := i
-		eps[i] = []string{"e0", "e1"}[v.Choose("ep", 2)]
+		l.eps[i] = []string{"e0", "e1"}[v.Choose("ep", 2)]
 		c := ginstub.NewContext(&http.Request{Method: "GET", Header: http.Header{}}, ginstub.NewWriter())
-		ginstub.Of(c).Params["endpointID"] = eps[i]
+		ginstub.Of(c).Params["endpointID"] = l.eps[i]
 		switch v.Choose("token", 3) {
 		case 1:
 			c.Set(middleware.TokenContextKey, &auth.Token{TenantID: "t"})
 		case 2:
 			c.Set(middleware.TokenContextKey, &auth.Token{TenantID: "t", Expiry: v.Time("expiry")})
 		}
-		wg.Add(1)
+		l.wg.Add(1)
 		go func() {
-			defer wg.Done()
-			s.upstreamRoute(c)
-			ended[i] = true
+			defer l.wg.Done()
+			l.s.upstreamRoute(c)
+			l.ended[i] = true
 		}()
 	}
 	// wait until all K connections are established and blocked in accept
 	v.WaitUntil(func() bool { return VerifAcceptCalls >= K && len(VerifSessions) == K })
 	for _, id := range []string{"e0", "e1"} {
 		n := 0
-		for _, e := range eps {
+		for _, e := range l.eps {
 			if e == id {
 				n++
 			}
 		}
-		v.Assert("C16/live/registered-while-connected", VerifRegistered(m, id) == n && cs.LocalEndpointListeners(id) == n)
+		v.Assert(tag+"/registered-while-connected", VerifRegistered(l.m, id) == n && l.cs.LocalEndpointListeners(id) == n)
 	}
-	v.Assert("C16/live/sessions-tracked", s.openSessions() == K)
+	v.Assert(tag+"/sessions-tracked", l.s.openSessions() == K)
+	return l
+}
+
+// Harness_C18_upstreams_withdrawn: a node with K live upstream connections
+// shuts its upstream server down (whether or not the HTTP server stops within
+// the grace period): every handler ends (a schedule in which one cannot is
+// reported as a deadlock), every session is closed - so the listeners see the
+// loss and reconnect elsewhere - and the node advertises nothing any more.
+func Harness_C18_upstreams_withdrawn() {
+	K := v.Param("K", 2)
+	l := vStartLive("C18/withdrawn", K)
+	VerifHTTPShutdownFail = v.Choose("http-shutdown-fails", 2) == 1
+	err := l.s.Shutdown(context.Background())
+	v.Assert("C18/withdrawn/shutdown-reports-http-error", (err != nil) == VerifHTTPShutdownFail)
+	l.wg.Wait()
+	for _, id := range []string{"e0", "e1"} {
+		v.Assert("C18/withdrawn/nothing-advertised", l.cs.LocalEndpointListeners(id) == 0 && VerifRegistered(l.m, id) == 0)
+	}
+	v.Assert("C18/withdrawn/no-session-held", l.s.openSessions() == 0)
+	for _, x := range VerifSessions {
+		v.Assert("C18/withdrawn/every-session-closed", vIsClosed(x))
+	}
+	if VerifHTTPShutdownFail {
+		v.Cover("http-shutdown-failed")
+	}
+	v.Cover("withdrawn")
+}
+
+func Harness_C16_live() {
+	K := v.Param("K", 2)
+	l := vStartLive("C16/live", K)
+	s, m, cs, eps, ended := l.s, l.m, l.cs, l.eps, l.ended
+	_ = eps
 
 	// which session belongs to which connection: by registration order of the
 	// handler goroutines (sessions are created in the handler)
@@ -157,7 +200,7 @@ func Harness_C16_live() {
 
 	// finally the server shuts down: every handler ends, nothing is left
 	_ = s.Shutdown(context.Background())
-	wg.Wait()
+	l.wg.Wait()
 	v.Assert("C16/live/nothing-left-after-shutdown", s.openSessions() == 0 && VerifRegistered(m, "e0") == 0 && VerifRegistered(m, "e1") == 0 &&
 		cs.LocalEndpointListeners("e0") == 0 && cs.LocalEndpointListeners("e1") == 0)
 	v.Assert("C16/live/every-session-closed", len(VerifSessions) == K)
